@@ -1,33 +1,54 @@
 #!/usr/bin/env python3
-"""Runs every quick check against every seeded change (sequentially; uses /repo itself).
-Writes /verif/seeded/MATRIX.json.  Nothing else may use /repo while this runs."""
+"""Runs quick checks against seeded changes, sequentially.
+  [ISO=/tmp/mx] seed_matrix.py [--target-only] [--scale X] [--redo] [seed ids...]
+Without ISO it uses /repo itself (nothing else may use /repo meanwhile); with ISO it uses the isolated
+copy made by tools/iso_setup.sh.  Results are merged into <root>/seeded/MATRIX.json (all checks, run
+at --scale, default 0.5) or <root>/seeded/TARGET.json (--target-only: only the check of the property
+the seed was written against, default scale 1 = exactly the registered quick command)."""
 import subprocess, json, os, re, sys, time
-ROOT="/verif"
-props=[json.loads(l)["id"] for l in open(ROOT+"/properties.jsonl")]
-seeds=sorted(d for d in os.listdir(ROOT+"/seeded") if os.path.isdir(ROOT+"/seeded/"+d))
-only=sys.argv[1:]
-out_path=ROOT+"/seeded/MATRIX.json"
-res=json.load(open(out_path)) if os.path.exists(out_path) else {}
+ISO = os.environ.get("ISO")
+ROOT = ISO + "/verif" if ISO else "/verif"
+REPO = ISO + "/repo" if ISO else "/repo"
+args = sys.argv[1:]
+target_only = "--target-only" in args
+redo = "--redo" in args
+scale = None
+if "--scale" in args:
+    i = args.index("--scale"); scale = args[i + 1]; args = args[:i] + args[i + 2:]
+only = [a for a in args if not a.startswith("--")]
+if scale is None:
+    scale = "1" if target_only else "0.5"
+props = [json.loads(l)["id"] for l in open(ROOT + "/properties.jsonl")]
+seeds = sorted(d for d in os.listdir(ROOT + "/seeded") if os.path.isdir(ROOT + "/seeded/" + d))
+out_path = ROOT + "/seeded/" + ("TARGET.json" if target_only else "MATRIX.json")
+res = json.load(open(out_path)) if os.path.exists(out_path) else {}
 def sh(c): return subprocess.run(c, shell=True, stdout=subprocess.PIPE, stderr=subprocess.STDOUT, text=True)
+def cleanup():
+    sh("git -C %s reset -q; git -C %s checkout -- ." % (REPO, REPO))
+    if ISO:
+        sh("cd %s && rm -rf replays evidence && rsync -a /verif/replays /verif/evidence ." % ROOT)
+    else:
+        sh("cd %s && git clean -fdq replays/ && git checkout -q -- evidence/" % ROOT)
 for s in seeds:
     if only and s not in only: continue
-    if s in res and len(res[s])==len(props): continue
-    assert not sh("git -C /repo status --porcelain --untracked-files=no").stdout.strip()
-    r=sh("git -C /repo apply %s/seeded/%s/patch.diff" % (ROOT,s))
-    if r.returncode!=0:
-        res[s]={"error":"apply failed: "+r.stdout[-200:]}; continue
-    row={}
+    meta = json.load(open("%s/seeded/%s/meta.json" % (ROOT, s)))
+    todo = [meta["breaks_property"]] if target_only else props
+    if not redo and s in res and all(p in res[s] for p in todo): continue
+    assert not sh("git -C %s status --porcelain --untracked-files=no" % REPO).stdout.strip()
+    r = sh("git -C %s apply %s/seeded/%s/patch.diff" % (REPO, ROOT, s))
+    if r.returncode != 0:
+        res[s] = {"error": "apply failed: " + r.stdout[-200:]}; continue
+    row = {}
     try:
-        for p in props:
-            t0=time.time()
-            c=sh("cd %s && MQV_NO_SHRINK=1 timeout -k 5 420 ./check %s --tier quick --scale 0.5" % (ROOT,p))
-            kinds=sorted(set(re.findall(r"^  ([A-Za-z]+):", c.stdout, re.M)))
-            row[p]={"exit":c.returncode,"kinds":kinds,"s":round(time.time()-t0,1)}
-            if c.returncode==2:
-                row[p]["tail"]=c.stdout[-600:]
+        for p in todo:
+            t0 = time.time()
+            c = sh("cd %s && MQV_NO_SHRINK=1 timeout -k 5 600 ./check %s --tier quick --scale %s" % (ROOT, p, scale))
+            kinds = sorted(set(re.findall(r"^  ([A-Za-z]+):", c.stdout, re.M)))
+            row[p] = {"exit": c.returncode, "kinds": kinds, "s": round(time.time() - t0, 1)}
+            if c.returncode not in (0, 1):
+                row[p]["tail"] = c.stdout[-600:]
     finally:
-        sh("git -C /repo reset -q; git -C /repo checkout -- .")
-        sh("cd %s && git clean -fdq replays/ && git checkout -q -- evidence/" % ROOT)
-    res[s]=row
-    json.dump(res, open(out_path,"w"), indent=1, sort_keys=True)
-    print(s, {p:v["exit"] for p,v in row.items() if v["exit"]!=0}, flush=True)
+        cleanup()
+    res[s] = row
+    json.dump(res, open(out_path, "w"), indent=1, sort_keys=True)
+    print(s, {p: v["exit"] for p, v in row.items()} if target_only else {p: v["exit"] for p, v in row.items() if v["exit"] != 0}, flush=True)
